@@ -227,6 +227,11 @@ def e2e_case(ctx, sb, n, provider, local, cloud, mx, faults, stray=()):
             ns["%s/%s/%s.tar.gpg" % (cl.CLOUD_ROOT, gname(g), bname(g, b))] = {"type": "file", "content_hex": (b"cloud object %d" % b).hex()}
     if "cloud" in stray:
         ns["%s/stray-object.txt" % cl.CLOUD_ROOT] = {"type": "file", "content_hex": b"stray".hex()}
+    for x in stray:
+        # ("cloud-temp", g, b): a temporary object left by an interrupted upload of local backup b, which the cloud does not hold yet: it is not
+        # a backup - the run must still upload b
+        if isinstance(x, (list, tuple)) and x[0] == "cloud-temp":
+            ns["%s/%s/.%s.tar.gpg" % (cl.CLOUD_ROOT, gname(x[1]), bname(x[1], x[2]))] = {"type": "file", "content_hex": b"half an upload".hex()}
     init = {"dropbox": ns, "yandex": ns, "google": ns}
     # the order of creations / uploads does not depend on the ok flag: plan once to place the faults
     plan = model.run_driver([[600, [local, cloud, 1, mx, [], []]]])[0]
@@ -351,6 +356,21 @@ def e2e(ctx, rng, ncases):
                 ctx.nontrivial.add(("e2e-targeted", provider, tuple(stray)))
                 if pr:
                     ctx.violation("e2e", pr[1], {"provider": provider, "local": local, "cloud": cloud, "max": 2, "faults": [], "stray": stray},
+                                  failing_input=(pr[0] == "violation"))
+                    return
+                k += 1
+            # targeted: the cloud group holds the first backup and the TEMPORARY object of an interrupted upload of the second one: the run must
+            # upload the second backup all the same (a temporary object is not a backup), and a second run has nothing left to do
+            for provider in (providers if ctx.tier == "thorough" else [providers[ctx.rng.randrange(3)], "yandex"]):
+                local = [[6, [600001, 600002]]]
+                cloud = [[6, [600001]]]
+                pr = e2e_case(ctx, sb, 1100 + k, provider, local, cloud, 2, [], [("cloud-temp", 6, 600002)])
+                ctx.evaluations += 1
+                ctx.count("e2e.targeted.cloud-temporary-of-missing-backup")
+                ctx.nontrivial.add(("e2e-targeted-temp", provider))
+                if pr:
+                    ctx.violation("e2e", pr[1] + " [the cloud group also held the temporary object of an interrupted upload of backup 600002]",
+                                  {"provider": provider, "local": local, "cloud": cloud, "max": 2, "faults": [], "stray": [["cloud-temp", 6, 600002]]},
                                   failing_input=(pr[0] == "violation"))
                     return
                 k += 1
